@@ -40,10 +40,15 @@ def text_of(secs, style=None):
 def normalise_output(target, data):
     """comparable form of a written table: text as is, workbooks as decoded cell contents"""
     if isinstance(data, bytes) and target.startswith("excel"):
-        wb = parsers.xlsx(data)
+        try:
+            wb = parsers.xlsx(data)
+        except Exception as e:
+            # the file written is no workbook at all (e.g. a table of another target): an output like any other,
+            # which compares unequal to every workbook
+            return "NOT A WORKBOOK (%s): %r" % (type(e).__name__, data[:200])
         return json.dumps(wb, sort_keys=True, default=str)
     if isinstance(data, bytes):
-        return data.decode()
+        return data.decode(errors="replace")
     return data
 
 
@@ -70,7 +75,7 @@ def cli_outcome(text, target, args, inproc=False):
     name = "out.xlsx" if target.startswith("excel") else "out.tab"
     res = (libroute.run_potable_main if inproc else libroute.run_potable)(list(args), text, outname=name)
     if res["rc"] == 0 and res["out"] is not None:
-        return ("ok", normalise_output(target, res["out"] if target.startswith("excel") else res["out"].decode()))
+        return ("ok", normalise_output(target, res["out"] if target.startswith("excel") else res["out"].decode(errors="replace")))
     if res["rc"] == 2 and "configuration error" in res["stderr"]:
         return ("config_error", res["stderr"].strip().splitlines()[-1])
     return ("exception", "rc=%r %s" % (res["rc"], res["stderr"][-400:]))
